@@ -176,7 +176,7 @@ Qed.
 
 Lemma cubochoric_unit N q : In q (cubochoric_grid ROps N) -> qnorm2 ROps q = 1.
 Proof.
-  unfold cubochoric_grid. intros H.
+  unfold cubochoric_grid, cubochoric_loop. intros H.
   apply in_flat_map in H. destruct H as [i [_ H]].
   apply in_flat_map in H. destruct H as [j [_ H]].
   apply in_flat_map in H. destruct H as [k [_ H]].
@@ -191,8 +191,12 @@ Proof.
   destruct (method =? 2)%Z; [apply three_uniform_unit | apply cubochoric_unit].
 Qed.
 
-(* the loop over the reals never discards a point: |i * (L / N)| <= L for
-   -N < i <= N, so over R the grid has exactly (2N)^3 points *)
+(* the loop never discards a point of the index range -N < i <= N, and this does
+   not hinge on the exact value of the step: it is enough that the outermost
+   coordinate N * step stays within the guard's tolerance, |N * step| <= L + 1e-8
+   (the guard compares with  semi_edge_length + 1e-8 ; in floating point
+   N * (L / N) can exceed L by an ulp, e.g. N = 65).  For the exact step L / N the
+   grid has (2N)^3 points *)
 Lemma zrange_length lo hi : length (zrange lo hi) = Z.to_nat (hi - lo).
 Proof. unfold zrange. rewrite map_length, seq_length. reflexivity. Qed.
 
@@ -208,36 +212,33 @@ Proof.
   apply Rmult_lt_0_compat; [lra|]. unfold Rpower. apply exp_pos.
 Qed.
 
-Lemma coord_in_cube N i : (0 < N)%Z -> (- N < i <= N)%Z ->
-  Rabs (IZR i * (semi_edge_length ROps / IZR N)) <= semi_edge_length ROps.
+Definition guard_tol : R := 1 / 100000000.
+
+Lemma coord_in_cube N step i : (0 < N)%Z -> (- N < i <= N)%Z ->
+  IZR N * Rabs step <= semi_edge_length ROps + guard_tol ->
+  Rabs (IZR i * step) <= semi_edge_length ROps + guard_tol.
 Proof.
-  intros HN Hi. pose proof semi_edge_pos as HL.
-  assert (HNr : 0 < IZR N) by (apply IZR_lt; exact HN).
-  replace (IZR i * (semi_edge_length ROps / IZR N)) with (semi_edge_length ROps * (IZR i / IZR N)) by (field; lra).
-  rewrite Rabs_mult, (Rabs_right (semi_edge_length ROps)) by lra.
-  assert (Hq : Rabs (IZR i / IZR N) <= 1).
-  { unfold Rdiv. rewrite Rabs_mult, (Rabs_right (/ IZR N)) by (left; apply Rinv_0_lt_compat; lra).
-    apply Rmult_le_reg_r with (IZR N); [lra|]. rewrite Rmult_assoc, Rinv_l by lra.
-    rewrite Rmult_1_r, Rmult_1_l. apply Rabs_le. split.
-    - rewrite <- opp_IZR. apply IZR_le. lia.
-    - apply IZR_le. lia. }
-  nra.
+  intros HN Hi Hs. rewrite Rabs_mult.
+  assert (Hq : Rabs (IZR i) <= IZR N).
+  { apply Rabs_le. split; [rewrite <- opp_IZR|]; apply IZR_le; lia. }
+  pose proof (Rabs_pos step). pose proof (Rabs_pos (IZR i)). nra.
 Qed.
 
 Lemma omax_le a b L : a <= L -> b <= L -> o_max ROps a b <= L.
 Proof. intros. unfold o_max. rsimpl. destruct (Rltb a b); lra. Qed.
 
-Lemma cubo_cell_kept N i j k : (0 < N)%Z ->
+Lemma cubo_cell_kept N step i j k : (0 < N)%Z ->
+  IZR N * Rabs step <= semi_edge_length ROps + guard_tol ->
   (- N < i <= N)%Z -> (- N < j <= N)%Z -> (- N < k <= N)%Z ->
-  length (cubo_cell ROps (semi_edge_length ROps / IZR N) i j k) = 1%nat.
+  length (cubo_cell ROps step i j k) = 1%nat.
 Proof.
-  intros HN Hi Hj Hk. unfold cubo_cell, max_abs3.
-  pose proof (coord_in_cube N i HN Hi) as H1. pose proof (coord_in_cube N j HN Hj) as H2.
-  pose proof (coord_in_cube N k HN Hk) as H3.
+  intros HN Hs Hi Hj Hk. unfold cubo_cell, max_abs3.
+  pose proof (coord_in_cube N step i HN Hi Hs) as H1. pose proof (coord_in_cube N step j HN Hj Hs) as H2.
+  pose proof (coord_in_cube N step k HN Hk Hs) as H3.
   pose proof (omax_le _ _ _ (omax_le _ _ _ H1 H2) H3) as H.
   change (o_mul ROps) with Rmult. change (o_ofZ ROps) with IZR. change (o_abs ROps) with Rabs.
   destruct (o_ltb ROps _ _) eqn:E; [|reflexivity].
-  apply Rltb_true in E. lra.
+  apply Rltb_true in E. unfold guard_tol in H. revert E. rsimpl. intros E. lra.
 Qed.
 
 Lemma flat_map_const_length {A B} (f : A -> list B) (l : list A) m :
@@ -248,10 +249,11 @@ Proof.
   rewrite (H a) by (left; reflexivity). rewrite IH by (intros b Hb; apply H; right; exact Hb). lia.
 Qed.
 
-Lemma cubochoric_size N : (0 < N)%Z ->
-  length (cubochoric_grid ROps N) = (Z.to_nat (2 * N) * Z.to_nat (2 * N) * Z.to_nat (2 * N))%nat.
+Lemma cubochoric_loop_size N step : (0 < N)%Z ->
+  IZR N * Rabs step <= semi_edge_length ROps + guard_tol ->
+  length (cubochoric_loop ROps step N) = (Z.to_nat (2 * N) * Z.to_nat (2 * N) * Z.to_nat (2 * N))%nat.
 Proof.
-  intros HN. unfold cubochoric_grid. rsimpl.
+  intros HN Hs. unfold cubochoric_loop.
   assert (HL : length (zrange (- N + 1) (N + 1)) = Z.to_nat (2 * N)) by (rewrite zrange_length; f_equal; lia).
   rewrite (flat_map_const_length _ _ (Z.to_nat (2 * N) * Z.to_nat (2 * N))).
   - rewrite HL. lia.
@@ -259,7 +261,17 @@ Proof.
     rewrite (flat_map_const_length _ _ (Z.to_nat (2 * N))); [rewrite HL; lia|].
     intros j Hj. apply zrange_in in Hj.
     rewrite (flat_map_const_length _ _ 1%nat); [rewrite HL; lia|].
-    intros k Hk. apply zrange_in in Hk. apply cubo_cell_kept; lia.
+    intros k Hk. apply zrange_in in Hk. apply (cubo_cell_kept N); (assumption || lia).
+Qed.
+
+Lemma cubochoric_size N : (0 < N)%Z ->
+  length (cubochoric_grid ROps N) = (Z.to_nat (2 * N) * Z.to_nat (2 * N) * Z.to_nat (2 * N))%nat.
+Proof.
+  intros HN. unfold cubochoric_grid. apply cubochoric_loop_size; [exact HN|].
+  pose proof semi_edge_pos as HL. assert (HNr : 0 < IZR N) by (apply IZR_lt; exact HN).
+  change (o_div ROps) with Rdiv. change (o_ofZ ROps) with IZR. unfold guard_tol.
+  rewrite Rabs_right by (apply Rle_ge; apply Rmult_le_pos; [lra | left; apply Rinv_0_lt_compat; lra]).
+  replace (IZR N * (semi_edge_length ROps / IZR N)) with (semi_edge_length ROps) by (field; lra). lra.
 Qed.
 
 (* ------------------------------------------------------------- S2 meshes *)
